@@ -286,6 +286,31 @@ func (fr *frame) loopEnv(h *ssa.BasicBlock, phiVals map[*ssa.Phi]SV, cur *State)
 	}
 	// source names of values defined before the loop (DebugRef), closest dominating definition wins
 	best := map[string]*ssa.BasicBlock{}
+	cellNames := map[string]bool{}
+	// named locals that live in a cell (captured by a closure, address taken, named results of functions with defer):
+	// the name denotes the value currently stored in the cell - not any value that was once loaded from or stored to it
+	for _, b := range fr.fn.Blocks {
+		if !b.Dominates(h) || b == h {
+			continue
+		}
+		for _, ins := range b.Instrs {
+			al, ok := ins.(*ssa.Alloc)
+			if !ok || al.Comment == "" || cellNames[al.Comment] {
+				continue
+			}
+			if !isSourceName(al.Comment) {
+				continue
+			}
+			if _, isParam := vc.params[al.Comment]; isParam && fr.top {
+				continue
+			}
+			if psv, have := fr.env[al]; have {
+				best[al.Comment] = b
+				cellNames[al.Comment] = true
+				env.vars[al.Comment] = SV{t: vc.loadLoc(cur, vc.locOf(psv)), typ: derefType(al.Type())}
+			}
+		}
+	}
 	for _, b := range fr.fn.Blocks {
 		if !b.Dominates(h) || b == h {
 			continue
@@ -306,9 +331,15 @@ func (fr *frame) loopEnv(h *ssa.BasicBlock, phiVals map[*ssa.Phi]SV, cur *State)
 						if pb := best[id.Name]; pb == nil || pb.Dominates(b) {
 							best[id.Name] = b
 							env.vars[id.Name] = SV{t: vc.loadLoc(cur, vc.locOf(psv)), typ: derefType(al.Type())}
+							cellNames[id.Name] = true
 						}
 					}
 				}
+				continue
+			}
+			if cellNames[id.Name] {
+				// a value once read from (or about to be written to) the cell of an address-taken local is not the
+				// variable: the cell's current content is
 				continue
 			}
 			sv, have := fr.env[dr.X]
@@ -1428,4 +1459,14 @@ func (fr *frame) callArgs(c *ssa.CallCommon) []SV {
 		args = append(args, fr.val(a))
 	}
 	return args
+}
+
+// isSourceName: the comment of an Alloc is a source variable name (go/ssa also uses comments such as "makeslice",
+// "complit", "varargs", "slicelit" for compiler temporaries).
+func isSourceName(c string) bool {
+	switch c {
+	case "makeslice", "complit", "varargs", "slicelit", "new", "makemap", "range", "typeassert", "":
+		return false
+	}
+	return !strings.ContainsAny(c, ".$ ")
 }
